@@ -19,6 +19,7 @@ type knownArity struct {
 		Key      string `json:"key"`
 		Doc      [2]int `json:"doc"`
 		Enforced [2]int `json:"enforced"`
+		Fixed    bool   `json:"fixed"` // repaired in slip: no longer exempt from the table theorem
 	} `json:"arity"`
 }
 
@@ -90,14 +91,17 @@ func RunArity(ctx *common.Ctx) {
 	rows, err := arity.Extract(common.RepoDir())
 	if err != nil {
 		panic("c04 translator: cannot parse the repository: " + err.Error())
-		return
 	}
 	known := map[string]bool{}
-	for id, raw := range ctx.Known {
+	fixed := map[string]bool{}
+	for _, raw := range ctx.Known {
 		var k knownArity
 		if json.Unmarshal(raw, &k) == nil && k.Arity != nil {
-			known[k.Arity.Key] = true
-			_ = id
+			if k.Arity.Fixed {
+				fixed[k.Arity.Key] = true
+			} else {
+				known[k.Arity.Key] = true
+			}
 		}
 	}
 	var sb strings.Builder
@@ -144,6 +148,10 @@ func RunArity(ctx *common.Ctx) {
 				}
 				m["count_where_they_differ"] = cnt
 				mism = append(mism, m)
+				if fixed[key] {
+					// a repaired row is back: also reported as the regression of its recorded finding
+					ctx.KnownResult("C04-arity:"+key, true, fmt.Sprintf("doc %v enforced %v", [2]int{mn, mx}, [2]int{r.Min, r.Max}))
+				}
 				ctx.Violate("documented lambda list and enforced argument count differ for a built-in", m, fmt.Sprintf("enforced (min,max) = (%d,%d)", r.Min, r.Max), fmt.Sprintf("documented (min,max) = (%d,%d)", mn, mx))
 			}
 		}
